@@ -10,7 +10,7 @@ D5 no other influence on the route: every non-scheduler source of the routing in
 """
 from ..absint import AbsInt, Entry, Num
 from ..ctx import CONN, is_call, is_field, sname, some_of
-from ..expr import show, walk
+from ..expr import show, strip_old, walk
 from ..pathcond import calls_to, field_stores
 from . import C03, C06
 from .route import routing_sources
@@ -127,6 +127,31 @@ def d3_window_rules(ctx):
                         and a[3][2][0] == ("param", 2) and a[3][2][1][0] in ("const", "constdef") and pa.entails(pc, pa.atom(a)):
                     ok = a[3][2][1] == ("const", 1000, "i32")
         ctx.chk.ob("D3", "classic ACK grows only when in_flight x 1000 > window", ok, "", key="D3:classic-ack-guard")
+    # ... and the in_flight it is given is the link's registered in-flight count (not in-flight + queued, which is what the *score*
+    # counts): every call chain from the connection down to the rule passes self.in_flight_packets / its own parameter unchanged,
+    # together with the link's own window
+    WR = CC + "::handle_srtla_ack_specific_classic"
+    n_chain = 0
+    for g_ in ctx.w.fns.values():
+        for (bb, t) in g_.calls():
+            st_ = t["f"].get("stable", "")
+            if st_ not in (WR, CLASSIC_ACK) or "::tests" in g_.stable:
+                continue
+            n_chain += 1
+            gfa = ctx.fa(g_)
+            n_ = len(g_.blocks[bb]["stmts"])
+            args = [strip_old(gfa.val_operand(a, (bb, n_))) for a in t["args"]]
+            off = 1 if st_ == WR else 0
+            wv, iv = args[off], args[off + 1]
+            if g_.stable == WR:
+                okc = wv == ("param", 2) and iv == ("param", 3)
+            else:
+                okc = is_field(wv, "window", CONN) and is_field(iv, "in_flight_packets", CONN) and wv[1] == iv[1]
+            ctx.chk.ob("D3", "%s hands the classic ACK rule the link's own window and registered in-flight count" % sname(g_.stable), okc,
+                       "window <- %s ; in_flight <- %s" % (show(wv, g_.names)[:60], show(iv, g_.names)[:80]), key="D3:classic-ack-args:%s" % g_.stable, loc=t.get("loc"))
+    ctx.chk.floor("D3", "call sites on the way to the classic ACK rule", n_chain, 2)
+    ctx.WHO_CALLS("D3", CLASSIC_ACK, {WR}, floor=1)
+    ctx.WHO_CALLS("D3", WR, {CONN + "::handle_srtla_ack_specific"}, floor=1)
     # global +1
     g = ctx.fn(CONN + "::handle_srtla_ack_global", "D3")
     if g:
